@@ -53,7 +53,7 @@ StrClauses(o) ==
                 r == o.val[j]
             IN  IF ~Supported(K, P) THEN ~Rejected(r)
                 ELSE ~Ok(r) \/ (DecodeLiteral(K, r.out) # FilterParts(K, P) /\ ~EscDev(K, P, r.out, TRUE))
-                     \/ (K.quote # NONE /\ ~(Len(r.out) >= 2 /\ r.out[1] = K.quote /\ r.out[Len(r.out)] = K.quote))
+                     \/ (K.quote # NONE /\ QuotedForm(K, r.out) # MustQuote(K, P))
         EscDevSeen ==
             \E j \in 1..Len(o.ks) : LET K == Configs[o.ks[j]] IN
                 Supported(K, P) /\ Ok(o.conv[j]) /\ Ok(o.val[j]) /\
